@@ -4,8 +4,6 @@ Import ListNotations.
 Require Import Base.Py Base.ZList Model.InfoBase Model.InfoMpeg Model.InfoXing Gen.Gen_tables Proofs.C05_bits.
 Open Scope Z_scope.
 
-Definition opt_u32 (o : option Z) : Prop := match o with Some v => 0 <= v < 4294967296 | None => True end.
-Definition opt_val (o : option Z) : Z := match o with Some v => v | None => -1 end.
 
 (* without a LAME extension the duration is frames * samples per frame; without a frame count it stays unknown *)
 Theorem xing_plain_tag spf sr off pre info frames bytes toc scale rest :
